@@ -14,6 +14,7 @@ import (
 // their closures and the helpers inlined into them).
 // validityExceptions: one finding per entry, with the reason it cannot happen.
 var validityExceptions = map[string]struct{ contains, reason string }{
+	"federation.(*Executor).execute": {"a goroutine appends to", "the optional response metadata of the sub-plans is collected under resMu in completion order; it is an unordered side channel for the caller's hook (the response JSON, which C06 is about, is stitched by position)"},
 	"federation.mergeSameAlias":       {"a re-sliced view without a capacity limit", "selections[:0] compacts the caller's slice in place; documented at the site: element k is written only after element k was read, and the only caller (flatten) replaces its slice with the result"},
 	"graphql.nestPathError":           {"result is kept somewhere else", "the key is appended to the inner error's path: the only *pathError values that reach this function were built by its own literal []string{key} (len == cap, so the append reallocates) or by one earlier nesting of the same error value on its way up; await, the only multi-level nester that could hand one error to several parents, has no caller"},
 	"graphql.nestPathErrorMulti":      {"result is kept somewhere else", "as nestPathError: the *pathError values Fail sees come from resolveObjectBatch's nestPathError(alias, err) literal (len == cap == 1), so appending the destination path always reallocates, also when one error is failed into several destinations"},
@@ -29,15 +30,21 @@ func GenericRules(c *an.Ctx) {
 	if len(fns) == 0 {
 		return
 	}
-	c.Check("R-VALID", "in the functions this property is anchored in: results of a failed call, values of a failed lookup / type assertion and values just tested nil are not used as if they were valid; locks are balanced; append never writes into storage the function does not own", 1, func(o *an.O) {
+	c.Check("R-VALID", "in the functions this property is anchored in: results of a failed call, values of a failed lookup / type assertion and values just tested nil are not used as if they were valid; locks are balanced; append never writes into storage the function does not own; goroutines do not append to a shared slice", 1, func(o *an.O) {
 		for _, fn := range fns {
 			for _, g := range an.WithAnons(fn) {
 				if len(g.Blocks) == 0 {
 					continue
 				}
 				o.SitePos(c.P.Pos(g.Pos()))
-				for _, f := range append(append(an.ValidityLints(g), an.LockBalanceLints(g)...), an.AliasLints(g)...) {
-					if ex, ok := validityExceptions[an.RelPkg(g)+"."+an.QualName(g)]; ok && strings.Contains(f.Msg, ex.contains) {
+				fs := append(append(an.ValidityLints(g), an.LockBalanceLints(g)...), an.AliasLints(g)...)
+				fs = append(fs, an.OrderLints(g)...)
+				for _, f := range fs {
+					outer := g
+					for outer.Parent() != nil {
+						outer = outer.Parent()
+					}
+					if ex, ok := validityExceptions[an.RelPkg(outer)+"."+an.QualName(outer)]; ok && strings.Contains(f.Msg, ex.contains) {
 						o.Note("exception in %s: %s", an.QualName(g), ex.reason)
 						continue
 					}
